@@ -173,7 +173,9 @@ impl LangInterpreter for French {
             }
             "million" | "millionième" if b.is_range_free(6, 8) => b.shift(6),
             "milliard" | "milliardième" => b.shift(9),
-            "et" if b.len() >= 2 => Err(Error::Incomplete),
+            // "et" links a tens word to "un"/"onze" or follows a scale word; after "dix" (which forbids
+            // the units un..six) it cannot continue the number: "dix et un" is two numbers, not 11
+            "et" if b.len() >= 2 && !blocked.contains(Excludable::UN_SIX) => Err(Error::Incomplete),
 
             _ => Err(Error::NaN),
         };
